@@ -13,7 +13,7 @@ RULE = ("streams of 1..4 valid messages (whole grammar, library spelling and for
         "random k-cuts (quick); ALL 2-cut partitions of streams <= 150 chars and ALL 3-cut partitions of streams <= 100 chars "
         "(thorough). After every piece the delivered list must equal exactly the messages whose last character has arrived "
         "(decides loss, order, duplication, content and promptness at once); Buffer.process runs under a logical step budget. "
-        "The same oracle through the real transports: 2..3 TCP server (or client, control/BLOB mode) connection handlers of one process, "
+        "The same oracle through the real transports: 2..3 TCP server (or client, control/BLOB mode; or one TTY plus TCP server) connection handlers of one process, "
         "each fed its own stream in random pieces, the pieces interleaved round-robin / randomly / sequentially; deliveries are "
         "recorded per connection at the router call / callback. non-trivial = the partition cuts inside a message; distinct = hash(stream, threshold, cut positions)")
 ASSUMPTIONS = ["only elements no longer than the threshold are generated when a threshold is set",
@@ -155,7 +155,7 @@ def transport_case(ctx, i):
     character arrived on THAT connection."""
     from vf import transportx as T
     rng = ctx.rng("transport", i)
-    kind = ["server-tcp", "client-tcp"][i % 2]
+    kind = ["server-tcp", "client-tcp", "server-tcp", "client-tcp", "server-tty+tcp"][i % 5]
     nconn = rng.choice([2, 2, 3])
     for_blobs = [kind == "client-tcp" and rng.random() < 0.5 for _ in range(nconn)]
     conns = []
@@ -169,11 +169,17 @@ def transport_case(ctx, i):
             if for_blobs[k] or longest_element(stream, ends) <= 2000:
                 break
         cuts = P.random_cuts(rng, len(stream), rng.choice([1, 2, 3, 6]))
+        if rng.random() < 0.6:
+            # cuts aimed at the structure: inside and right around tags, terminators, quotes
+            sp = [c for c in P.structural_positions(stream) if 0 < c < len(stream)]
+            if sp:
+                cuts = sorted(set(rng.sample(sp, min(len(sp), rng.choice([1, 2, 4])))) | set(cuts[:1]))
         conns.append((stream, ams, ends, P.cut(stream, cuts)))
     how = ["round-robin", "random", "random", "sequential"][(i // 2) % 4]
     schedule = T.interleavings(rng, [len(c[3]) for c in conns], how)
     case = {"mode": "transport", "i": i}
-    res, stats = T.run(kind, [c[3] for c in conns], schedule, for_blobs=for_blobs)
+    kinds = kind if kind != "server-tty+tcp" else ["server-tty"] + ["server-tcp"] * (nconn - 1)
+    res, stats = T.run(kinds, [c[3] for c in conns], schedule, for_blobs=for_blobs)
     ctx.count("transport_runs")
     ctx.count("transport_connections", nconn)
     ctx.count("transport_pieces_fed", len(res.after))
@@ -186,6 +192,9 @@ def transport_case(ctx, i):
         return True
     if res.foreign:
         ctx.violate(f"transport:delivery-attributed-to-nobody:{kind}", f"{res.foreign[0]}", case, detail)
+        return True
+    for step, ci, what, text in T.differential_problems(res):
+        ctx.violate(f"transport:{what}:{kinds[ci] if isinstance(kinds, list) else kinds}" + (":blob-mode" if for_blobs[ci] else ""), text, case, detail)
         return True
     for step, (ci, fed, ndel) in enumerate(res.after):
         due = sum(1 for e in conns[ci][2] if e <= fed)
